@@ -142,9 +142,9 @@ def run(ck):
 
     check_g(ck, repo, rule="C15.a", only={"SkBaseTransformLearner"})
     copies_only(ck, repo, rule="C15.c")
-    ck.require_count("C15.a", 10, "transform shape, 4 table entries, callable, fit forwarding, returns self, constructor binding")
-    ck.require_count("C15.b", 6, "transform, fit loop, returns self, conversion x3")
-    ck.require_count("C15.c", 20, "4 fit calls x (guard, receiver), forms, provenance x3, no writes, returns self, transform, default chain")
+    ck.require_count("C15.a", 6, "transform shape, 4 table entries, callable, fit forwarding, returns self, constructor binding")
+    ck.require_count("C15.b", 3, "transform, fit loop, returns self, conversion x3")
+    ck.require_count("C15.c", 12, "4 fit calls x (guard, receiver), forms, provenance x3, no writes, returns self, transform, default chain")
 
 
 _L = "mlinsights/sklapi/sklearn_base_transform_learner.py"
